@@ -66,6 +66,8 @@ fn main() {
             c01::run(args.seed, args.n, &mut o, true, 3, false);
             // a slice of the fold-count template family (C22): early termination is part of "the rows"
             c22::run(args.seed ^ 0x22, (args.n / 8).max(10), &mut o);
+            // deep recursion (implicit coercion at depth >= 3) is rare in the grammar-generated stream
+            c22::run_deep_recursion(args.seed, (args.n / 10).max(20), &mut o);
             o.finish();
         }
         "c06" => {
@@ -77,6 +79,7 @@ fn main() {
             // panic-freedom: Exec model's ROWS/PANIC prediction vs catch_unwind(interpret_ir)
             let mut o = out::Out::new(&args.out, "From TF Require Import Run RunNp.", 60);
             c01::run(args.seed, args.n, &mut o, false, 15, true);
+            c22::run_deep_recursion(args.seed, (args.n / 10).max(20), &mut o);
             o.finish();
         }
         "c22" => {
